@@ -8,7 +8,7 @@ deliver (`expected`).  Number cells carry the printed text together with the val
 
 Mathlib-free and executable: the C11 driver renders the harness's file models with `render`, answers `wf F`,
 `expected rate F` and evaluates the instance `readData … (fileLines F) = expected rate F` on every generated file.
-The file-level statement is **measured, not proved** (see `Props/C11.lean`).
+The file-level statement is proved for every well-formed file (`file_roundtrip2` in `Props/C11.lean`).
 -/
 import Midgard.Model.Rinex2Obs
 import Midgard.Spec.Rinex3ObsFile
@@ -129,12 +129,38 @@ def typeCellsOk (kc : String × List Str) : Bool :=
   else if kc.1 = "TYPES2C" then kc.2.all (fun t => t.length == 0 || t.length == 2)
   else true
 
+/-- the count cell of a first `# / TYPES OF OBSERV` record: the number of types of the file, as a digit string -/
+def countOk (n : Nat) (cells : List Str) : Bool :=
+  match cells with
+  | c :: _ => !c.isEmpty && allDigits c && digitsVal c == n
+  | [] => false
+
+/-- the `# / TYPES OF OBSERV` records of a header: exactly one first record (the one with the count, `TYPES2`), which carries
+the number `n` of types, and no continuation record (`TYPES2C`) before it; other records may stand anywhere in between.
+`seen` = the first record has been passed. -/
+def typesRecsOk (n : Nat) : Bool → List (String × List Str) → Bool
+  | seen, [] => seen
+  | seen, kc :: rest =>
+    if kc.1 = "TYPES2" then !seen && countOk n kc.2 && typesRecsOk n true rest
+    else if kc.1 = "TYPES2C" then seen && typesRecsOk n seen rest
+    else typesRecsOk n seen rest
+
+/-- a `TIME OF FIRST OBS` record carries a year of at least 10 as a digit string: the parser reads the century of every epoch
+off the first two characters of the time string `"{year}-{month:02d}-…"` it stores -/
+def tfirstOk (kc : String × List Str) : Bool :=
+  if kc.1 = "TFIRST" then
+    match kc.2 with
+    | y :: _ => !y.isEmpty && allDigits y && decide (10 ≤ digitsVal y)
+    | [] => false
+  else true
+
 def File.wf (F : File) : Bool :=
   sysStyleOk F && F.hdr.all typeCellsOk &&
   F.hdr.all (fun kc => kinds.any (·.1 == kc.1) && okCells kc.1 kc.2) &&
   !(types F.hdr).isEmpty && nodup (types F.hdr) &&
   F.hdr.any (·.1 == "MNAME") && F.hdr.any (·.1 == "TFIRST") &&
-  F.epochs.all (Epoch.wf (types F.hdr).length)
+  F.epochs.all (Epoch.wf (types F.hdr).length) &&
+  typesRecsOk (types F.hdr).length false F.hdr && F.hdr.all tfirstOk
 
 /-! ### what the parser must deliver -/
 
@@ -215,7 +241,7 @@ def expected (rate : Option Rat) (F : File) : Except Err State :=
           satellite := rows.map (·.sat), satnum := rows.map (·.num) } }
 
 /-- what the data section relies on at `END OF HEADER`, as a test on `headerState` (the handlers run on the header's
-*values*): sampling rate, `num_obstypes` and the type list, marker name, `TIME OF FIRST OBS` with a century that makes every
+*values*; it holds for every well-formed file: `hdr_ok2` in `Props/C11.lean`, and the driver still evaluates it): sampling rate, `num_obstypes` and the type list, marker name, `TIME OF FIRST OBS` with a century that makes every
 epoch's year readable, empty columns -/
 def hdrOk2 (rate : Option Rat) (F : File) : Bool :=
   match headerState rate F.hdr with
